@@ -128,5 +128,15 @@ def build(repo):
                          'A-params sub-range (func_tol.max_iters = 0 is accepted by the parameter check):: params("func_tol.max_iters") >= 1'],
                modifies=[], result=None, ensures=[],
                notes='under contract for its call-site obligations only: S-FISTA is entered with a finite gradient (and a zero Hessian) or not at all')
-    D.verify_list = ['model_value', 'Controller.trust_region_step', 'Controller.evaluate_criticality_measure', 'dykstra', 'pball', 'ctrsbox_pgd', 'ctrsbox_sfista', 'ctrsbox_linear', 'ctrsbox_geometry']
+    # ------------------------------------------------------------------ ball_step (bound-constrained geometry step: the last move along the free direction)
+    D.contract('ball_step', tags=['C13'], params={'x0': 'V', 'g': 'V', 'Delta': 'real'},
+               requires=['Delta > 0', 'the starting point is inside the ball:: DOT(x0, x0) <= Delta * Delta',
+                         'A-lib (Cauchy-Schwarz and positivity of the dot product):: DOT(g, g) >= 0 and DOT(x0, x0) >= 0 and DOT(g, x0) * DOT(g, x0) <= DOT(g, g) * DOT(x0, x0)'],
+               modifies=[], result='real',
+               ensures=['the step length is never negative:: result >= 0',
+                        ('unless g is numerically zero (||g|| < 1e-14) the step reaches the trust-region boundary: ||x0 + alpha*g||^2 == Delta^2 (real arithmetic; this is what lets the '
+                         'bound-constrained geometry step attain its maximum along the last free direction):: '
+                         'implies(DOT(g, g) >= 1e-28, DOT(g, g) * result * result + 2 * DOT(g, x0) * result + DOT(x0, x0) == Delta * Delta)'),
+                        'a numerically zero direction gives no step:: implies(DOT(g, g) < 1e-28, result == 0)'])
+    D.verify_list = ['ball_step', 'model_value', 'Controller.trust_region_step', 'Controller.evaluate_criticality_measure', 'dykstra', 'pball', 'ctrsbox_pgd', 'ctrsbox_sfista', 'ctrsbox_linear', 'ctrsbox_geometry']
     return D
